@@ -11,5 +11,8 @@ TD_Backend == "sql"
 TD_Gens == {1}
 TD_MaxLimit == 100
 TD_PolicyRefused == {}
+TD_Addrs == {"1.1.1.1"}
+TD_Cmds == {"EVENT"}
+TD_Rules == [global |-> [EVENT |-> << <<1, 1>> >>]]
 Traces == <<>>
 =============================================================================
